@@ -1,0 +1,130 @@
+//go:build verif
+
+package render
+
+// Contracts for the deductive verifier in /verif (ruxvc); comments only. Ghost state of writers
+// (body, hdrCalls, ...) and of header maps (headerVal) is declared in the root package and in pkg/handlers.
+
+// sinkRef(w): the writer whose log receives the bytes: rux's writer forwards to its underlying writer.
+//@ spec sinkRef(w http.ResponseWriter) ref = hastype(w, *rux.responseWriter) ? refof(rwOf(w).Writer) : refof(w)
+//@ spec hdrOf(w http.ResponseWriter) http.Header = cast(uf("headersOf", ref, sinkRef(w)), http.Header)
+//@ spec writerOK(w http.ResponseWriter) bool = w != nil && (hastype(w, *rux.responseWriter) ==> rwOf(w) != nil && wInv(rwOf(w)))
+//@ spec ctSet(w http.ResponseWriter) bool = len(hdrOf(w)["Content-Type"]) > 0
+//
+// renderedKind(sink): which renderer produced the response (1 JSON, 2 text, 3 XML): lets Auto's
+// postcondition name the renderer it selected.
+//@ ghost renderedKind(ref) int
+//@ ghost encW(ref) any
+//
+// encoding/json and encoding/xml encoders write through the writer they were given (assumed); an
+// unencodable value yields an error, not a panic (assumed).
+//@ extern encoding/json.NewEncoder(w) (enc)
+//@   modifies encW(_)
+//@   ensures enc != nil && fresh(enc) && encW(enc) == w
+//@   ensures forall x ref :: x != enc ==> encW(x) == old(encW(x))
+//@ extern (*encoding/json.Encoder).SetIndent(enc, prefix, indent)
+//@   pure
+//@ extern (*encoding/json.Encoder).SetEscapeHTML(enc, on)
+//@   pure
+//@ extern (*encoding/json.Encoder).Encode(enc, v) (err)
+//@   requires enc != nil && writerOK(cast(encW(enc), http.ResponseWriter))
+//@   modifies body(sinkRef(cast(encW(enc), http.ResponseWriter))), early(sinkRef(cast(encW(enc), http.ResponseWriter)))
+//@   modifies rwOf(cast(encW(enc), http.ResponseWriter)).status, rwOf(cast(encW(enc), http.ResponseWriter)).length
+//@   modifies hdrCalls(sinkRef(cast(encW(enc), http.ResponseWriter))), hdrStatus(sinkRef(cast(encW(enc), http.ResponseWriter)))
+//@   ensures writerOK(cast(encW(enc), http.ResponseWriter))
+//@   ensures err == nil ==> body(sinkRef(cast(encW(enc), http.ResponseWriter))) == old(body(sinkRef(cast(encW(enc), http.ResponseWriter)))) + uf("json.encoded", string, v)
+//@ extern encoding/xml.NewEncoder(w) (enc)
+//@   modifies encW(_)
+//@   ensures enc != nil && fresh(enc) && encW(enc) == w
+//@   ensures forall x ref :: x != enc ==> encW(x) == old(encW(x))
+//@ extern (*encoding/xml.Encoder).Indent(enc, prefix, indent)
+//@   pure
+//@ extern (*encoding/xml.Encoder).Encode(enc, v) (err)
+//@   requires enc != nil && writerOK(cast(encW(enc), http.ResponseWriter))
+//@   modifies body(sinkRef(cast(encW(enc), http.ResponseWriter))), early(sinkRef(cast(encW(enc), http.ResponseWriter)))
+//@   modifies rwOf(cast(encW(enc), http.ResponseWriter)).status, rwOf(cast(encW(enc), http.ResponseWriter)).length
+//@   modifies hdrCalls(sinkRef(cast(encW(enc), http.ResponseWriter))), hdrStatus(sinkRef(cast(encW(enc), http.ResponseWriter)))
+//@   ensures writerOK(cast(encW(enc), http.ResponseWriter))
+//@   ensures err == nil ==> body(sinkRef(cast(encW(enc), http.ResponseWriter))) == old(body(sinkRef(cast(encW(enc), http.ResponseWriter)))) + uf("xml.encoded", string, v)
+//@ extern encoding/json.Marshal(v) (bs, err)
+//@   ensures true
+//@ extern github.com/gookit/goutil/netutil/httpreq.ParseAccept(acceptHeader) (outs)
+//@   ensures outs == uf("parseAccept", []string, acceptHeader) || fresh(arr(outs))
+//@ extern errors.New(text) (err)
+//@   ensures err != nil
+
+// ---------------------------------------------------------------------------
+//@ func writeContentType [C19]
+//@   requires writerOK(w)
+//@   modifies hdrOf(w)["Content-Type"], headerVal(hdrOf(w), "Content-Type")
+//@   ensures never_overrides: old(ctSet(w)) ==> hdrOf(w)["Content-Type"] == old(hdrOf(w)["Content-Type"])
+//@       && headerVal(hdrOf(w), "Content-Type") == old(headerVal(hdrOf(w), "Content-Type"))
+//@   ensures sets_when_absent: !old(ctSet(w)) ==> len(hdrOf(w)["Content-Type"]) == 1 && hdrOf(w)["Content-Type"][0] == value && headerVal(hdrOf(w), "Content-Type") == value
+//@   ensures ctSet(w)
+
+//@ func Blob [C19]
+//@   requires writerOK(w)
+//@   modifies hdrOf(w)["Content-Type"], headerVal(hdrOf(w), "Content-Type"), body(sinkRef(w)), early(sinkRef(w))
+//@   modifies rwOf(w).status, rwOf(w).length, hdrCalls(sinkRef(w)), hdrStatus(sinkRef(w))
+//@   ensures ok: writerOK(w) && ctSet(w)
+//@   ensures never_overrides: old(ctSet(w)) ==> hdrOf(w)["Content-Type"] == old(hdrOf(w)["Content-Type"])
+//@   ensures content_type: !old(ctSet(w)) ==> hdrOf(w)["Content-Type"][0] == contentType
+//@   ensures body_written: err == nil ==> body(sinkRef(w)) == old(body(sinkRef(w))) + bytes(data)
+//@   ensures empty_writes_nothing: len(data) == 0 ==> err == nil && body(sinkRef(w)) == old(body(sinkRef(w)))
+//
+//@ func (JSONRenderer).Render [C19]
+//@   requires writerOK(w)
+//@   modifies hdrOf(w)["Content-Type"], headerVal(hdrOf(w), "Content-Type"), body(sinkRef(w)), early(sinkRef(w)), encW(_)
+//@   modifies rwOf(w).status, rwOf(w).length, hdrCalls(sinkRef(w)), hdrStatus(sinkRef(w)), renderedKind(sinkRef(w))
+//@   ghostset renderedKind(sinkRef(w)) = 1
+//@   ensures ok: writerOK(w) && ctSet(w) && renderedKind(sinkRef(w)) == 1
+//@   ensures never_overrides: old(ctSet(w)) ==> hdrOf(w)["Content-Type"] == old(hdrOf(w)["Content-Type"])
+//@   ensures content_type: !old(ctSet(w)) ==> hdrOf(w)["Content-Type"][0] == "application/json; charset=utf-8"
+//@   ensures body_is_encoding: err == nil ==> body(sinkRef(w)) == old(body(sinkRef(w))) + uf("json.encoded", string, obj)
+//
+//@ func (JSONPRenderer).Render [C19]
+//@   requires writerOK(w)
+//@   modifies hdrOf(w)["Content-Type"], headerVal(hdrOf(w), "Content-Type"), body(sinkRef(w)), early(sinkRef(w)), encW(_)
+//@   modifies rwOf(w).status, rwOf(w).length, hdrCalls(sinkRef(w)), hdrStatus(sinkRef(w))
+//@   ensures ok: writerOK(w) && ctSet(w)
+//@   ensures never_overrides: old(ctSet(w)) ==> hdrOf(w)["Content-Type"] == old(hdrOf(w)["Content-Type"])
+//@   ensures content_type: !old(ctSet(w)) ==> hdrOf(w)["Content-Type"][0] == "application/javascript; charset=utf-8"
+//@   ensures wrapped_in_callback: err == nil ==> body(sinkRef(w)) == old(body(sinkRef(w))) + r.Callback + "(" + uf("json.encoded", string, obj) + ");"
+//
+//@ func (XMLRenderer).Render [C19]
+//@   requires writerOK(w)
+//@   modifies hdrOf(w)["Content-Type"], headerVal(hdrOf(w), "Content-Type"), body(sinkRef(w)), early(sinkRef(w)), encW(_)
+//@   modifies rwOf(w).status, rwOf(w).length, hdrCalls(sinkRef(w)), hdrStatus(sinkRef(w)), renderedKind(sinkRef(w))
+//@   ghostset renderedKind(sinkRef(w)) = 3
+//@   ensures ok: writerOK(w) && ctSet(w) && renderedKind(sinkRef(w)) == 3
+//@   ensures never_overrides: old(ctSet(w)) ==> hdrOf(w)["Content-Type"] == old(hdrOf(w)["Content-Type"])
+//@   ensures content_type: !old(ctSet(w)) ==> hdrOf(w)["Content-Type"][0] == "application/xml; charset=utf-8"
+//@   ensures header_then_encoding: result == nil ==> body(sinkRef(w)) == old(body(sinkRef(w))) + "<?xml version=\"1.0\" encoding=\"UTF-8\"?>\n" + uf("xml.encoded", string, obj)
+
+// Content negotiation (C19): kindOf maps an accepted MIME type to the renderer that serves it
+// (0: not supported, 4: text/html, which Auto marks handled without writing anything).
+//@ spec kindOf(t string) int = t == "application/json" ? 1 : (t == "text/plain" ? 2 : ((t == "application/xml" || t == "text/xml") ? 3 : (t == "text/html" ? 4 : 0)))
+//@ func responseText [C19]
+//@   requires writerOK(w)
+//@   modifies hdrOf(w)["Content-Type"], headerVal(hdrOf(w), "Content-Type"), body(sinkRef(w)), early(sinkRef(w))
+//@   modifies rwOf(w).status, rwOf(w).length, hdrCalls(sinkRef(w)), hdrStatus(sinkRef(w)), renderedKind(sinkRef(w))
+//@   ghostset renderedKind(sinkRef(w)) = 2
+//@   ensures ok: writerOK(w) && renderedKind(sinkRef(w)) == 2
+//@   ensures never_overrides: old(ctSet(w)) ==> hdrOf(w)["Content-Type"] == old(hdrOf(w)["Content-Type"])
+//
+//@ func Auto [C19]
+//@   requires writerOK(w) && r != nil
+//@   modifies hdrOf(w)["Content-Type"], headerVal(hdrOf(w), "Content-Type"), body(sinkRef(w)), early(sinkRef(w)), encW(_)
+//@   modifies rwOf(w).status, rwOf(w).length, hdrCalls(sinkRef(w)), hdrStatus(sinkRef(w)), renderedKind(sinkRef(w))
+//@   ensures ok: writerOK(w)
+//@   ensures never_overrides: old(ctSet(w)) ==> hdrOf(w)["Content-Type"] == old(hdrOf(w)["Content-Type"])
+//@   ensures[C19] first_supported_type_wins: forall i int :: 0 <= i && i < len($phi_accepts) && kindOf($phi_accepts[i]) != 0
+//@       && (forall j int :: 0 <= j && j < i ==> kindOf($phi_accepts[j]) == 0)
+//@       ==> (kindOf($phi_accepts[i]) != 4 ==> renderedKind(sinkRef(w)) == kindOf($phi_accepts[i]))
+//@   ensures[C19] unsupported_is_an_error: (forall j int :: 0 <= j && j < len($phi_accepts) ==> kindOf($phi_accepts[j]) == 0) ==> err != nil
+//@ loop Auto #0
+//@   vars rangeindex, handled, err
+//@   invariant -1 <= rangeindex && rangeindex < len($phi_accepts) && writerOK(w) && !handled
+//@   invariant forall j int :: 0 <= j && j <= rangeindex ==> kindOf($phi_accepts[j]) == 0
+//@   invariant old(ctSet(w)) ==> hdrOf(w)["Content-Type"] == old(hdrOf(w)["Content-Type"])
+//@   invariant renderedKind(sinkRef(w)) == old(renderedKind(sinkRef(w)))
